@@ -12,8 +12,10 @@ import (
 	"path/filepath"
 	"sort"
 	"strings"
+	"time"
 
 	"github.com/pdfcpu/pdfcpu/pkg/api"
+	"github.com/pdfcpu/pdfcpu/pkg/pdfcpu"
 	"github.com/pdfcpu/pdfcpu/pkg/pdfcpu/model"
 	"verif/core"
 	"verif/engine"
@@ -109,6 +111,9 @@ type c35Args struct {
 	Map  map[string]string `json:"map,omitempty"`
 	Val  string            `json:"val,omitempty"`
 	VP   map[string]string `json:"vp,omitempty"`
+	// session: sub-steps applied to one in-memory document through the context-level functions the
+	// file API calls (no write in between), then one write
+	Steps []Step `json:"steps,omitempty"`
 }
 
 func attContent(name string) []byte {
@@ -135,6 +140,18 @@ func (m *c35Model) Apply(s Step) bool {
 	var a c35Args
 	json.Unmarshal(s.Args, &a)
 	switch s.Op {
+	case "session":
+		if len(a.Steps) == 0 {
+			return false
+		}
+		c := m.Clone().(*c35Model)
+		for _, sub := range a.Steps {
+			if !c.Apply(sub) {
+				return false
+			}
+		}
+		*m = *c
+		return true
 	case "kw-add":
 		if len(a.List) == 0 {
 			return false
@@ -461,8 +478,13 @@ func (c35Store) SetupAux(aux string) error {
 func (c35Store) Structural(string, Model) error { return nil }
 
 func (c35Store) Families() []string { return []string{"kw", "prop", "view", "vp", "att"} }
+var sessionOps = map[string]bool{"kw-add": true, "kw-remove": true, "prop-add": true, "prop-remove": true, "att-add": true, "att-remove": true}
+
 func (c35Store) Family(op string) string {
 	switch {
+	case op == "session":
+		return "prop" // sessions mix families; counted with one of them
+
 	case strings.HasPrefix(op, "layout"), strings.HasPrefix(op, "mode"):
 		return "view"
 	}
@@ -474,6 +496,14 @@ func (c35Store) Valid(mm Model, s Step) bool {
 	var a c35Args
 	json.Unmarshal(s.Args, &a)
 	switch s.Op {
+	case "session":
+		c := m.Clone().(*c35Model)
+		for _, sub := range a.Steps {
+			if !sessionOps[sub.Op] || !(c35Store{}).Valid(c, sub) || !c.Apply(sub) {
+				return false
+			}
+		}
+		return len(a.Steps) > 0
 	case "att-add":
 		for _, n := range a.List {
 			if _, ok := m.Att[n]; ok {
@@ -632,13 +662,37 @@ func step(op string, a c35Args) Step {
 	return Step{Op: op, Args: b}
 }
 
-func (c35Store) Gen(rng *rand.Rand, mm Model, aux string) Step {
+func (st c35Store) Gen(rng *rand.Rand, mm Model, aux string) Step { return st.gen(rng, mm, aux, true) }
+
+func (c35Store) gen(rng *rand.Rand, mm Model, aux string, allowSession bool) Step {
 	m := mm.(*c35Model)
 	existing := func(set []string, n int) []string {
 		if len(set) == 0 {
 			return nil
 		}
 		return pick(rng, set, n)
+	}
+	if allowSession && rng.IntN(9) == 0 {
+		// a session: 2-5 accepted edits of keywords, properties and attachments on one in-memory document
+		c := m.Clone().(*c35Model)
+		var subs []Step
+		for try := 0; try < 60 && len(subs) < 2+rng.IntN(4); try++ {
+			sub := (c35Store{}).gen(rng, c, aux, false)
+			if !sessionOps[sub.Op] || !(c35Store{}).Valid(c, sub) {
+				continue
+			}
+			cc := c.Clone().(*c35Model)
+			if !cc.Apply(sub) {
+				continue
+			}
+			c = cc
+			subs = append(subs, sub)
+		}
+		if len(subs) > 1 {
+			st := step("session", c35Args{Steps: subs})
+			st.NoFault = true
+			return st
+		}
 	}
 	for {
 		switch rng.IntN(16) {
@@ -745,6 +799,8 @@ func (c35Store) Exec(s Step, path, aux string) error {
 	var a c35Args
 	json.Unmarshal(s.Args, &a)
 	switch s.Op {
+	case "session":
+		return c35Session(path, aux, a.Steps)
 	case "kw-add":
 		return api.AddKeywordsFile(path, "", a.List, dsConf())
 	case "kw-remove":
@@ -797,9 +853,68 @@ func (c35Store) Exec(s Step, path, aux string) error {
 	return fmt.Errorf("harness: unknown op %s", s.Op)
 }
 
+// c35Session applies the sub-steps to one in-memory document and writes it once.
+func c35Session(path, aux string, subs []Step) error {
+	b, err := os.ReadFile(path)
+	if err != nil {
+		return fmt.Errorf("harness: %w", err)
+	}
+	conf := dsConf()
+	conf.Cmd = model.ADDPROPERTIES
+	ctx, err := api.ReadValidateAndOptimize(bytes.NewReader(b), conf)
+	if err != nil {
+		return err
+	}
+	mt := time.Now()
+	for i, sub := range subs {
+		var a c35Args
+		json.Unmarshal(sub.Args, &a)
+		ok := true
+		var err error
+		switch sub.Op {
+		case "kw-add":
+			err = pdfcpu.KeywordsAdd(ctx, a.List)
+		case "kw-remove":
+			ok, err = pdfcpu.KeywordsRemove(ctx, a.List)
+		case "prop-add":
+			err = pdfcpu.PropertiesAdd(ctx, a.Map)
+		case "prop-remove":
+			ok, err = pdfcpu.PropertiesRemove(ctx, a.List)
+		case "att-add":
+			for _, n := range a.List {
+				if err = ctx.AddAttachment(model.Attachment{Reader: bytes.NewReader(attContent(n)), ID: n, Desc: a.Map[n], ModTime: &mt}, false); err != nil {
+					break
+				}
+			}
+		case "att-remove":
+			ok, err = ctx.RemoveAttachments(a.List)
+		default:
+			return fmt.Errorf("harness: session op %s", sub.Op)
+		}
+		if err != nil {
+			return fmt.Errorf("session step %d (%s): %w", i+1, sub.Op, err)
+		}
+		if !ok {
+			return fmt.Errorf("session step %d (%s): nothing removed", i+1, sub.Op)
+		}
+	}
+	var out bytes.Buffer
+	if err := api.Write(ctx, &out, conf); err != nil {
+		return err
+	}
+	tmp := path + ".session"
+	if err := os.WriteFile(tmp, out.Bytes(), 0644); err != nil {
+		return fmt.Errorf("harness: %w", err)
+	}
+	if err := os.Rename(tmp, path); err != nil {
+		return fmt.Errorf("harness: %w", err)
+	}
+	return nil
+}
+
 func init() {
 	core.Register(histProp{id: "C35", store: c35Store{}, maxLen: 10, quickDocs: 4, quickN: 40, thoroughN: 800,
-		rule: "seeded histories of 1-10 edits (keywords add/remove/remove-all, properties add/remove/remove-all, page layout and page mode set/reset, viewer preferences set/reset (17 preferences: flags, direction, view/print area and clip, print scaling, duplex, copies, non-full-screen page mode), attachments add/remove) over small Unicode/special-character alphabets on corpus documents, each edit through the in-place file API; after every step the listing and the extracted attachment bytes are compared with a map/set model. Half of the batches inject, in about one step of four, an errno / short write / full disk / writer panic / crash snapshot at a seeded mutating file-system call of that step. Distinct by (document, step sequence incl. faults); non-trivial when at least one step succeeded.",
+		rule: "seeded histories of 1-10 edits (keywords add/remove/remove-all, properties add/remove/remove-all, page layout and page mode set/reset, viewer preferences set/reset (17 preferences: flags, direction, view/print area and clip, print scaling, duplex, copies, non-full-screen page mode), attachments add/remove) over small Unicode/special-character alphabets on corpus documents, each edit through the in-place file API, one step in nine a session of 2-5 keyword/property/attachment edits on one in-memory document through the context-level functions with a single write; after every step the listing and the extracted attachment bytes are compared with a map/set model. Half of the batches inject, in about one step of four, an errno / short write / full disk / writer panic / crash snapshot at a seeded mutating file-system call of that step. Distinct by (document, step sequence incl. faults); non-trivial when at least one step succeeded.",
 		assumptions: []string{
 			"keyword alphabet excludes ',' ';' and leading/trailing blanks (the Keywords entry is one separator-joined string, those are not representable); property keys exclude the standard Info keys (they are not listed as properties); re-adding a present attachment id is not generated (the statement does not say whether it replaces or duplicates)",
 			"removing something absent is an error of the API and leaves the model unchanged; remove-all of properties also counts the catalog's XMP metadata stream as something removed",
